@@ -212,6 +212,19 @@ func initVerifAPI() {
 			in.path.recursionLimit = int(n)
 			return nil
 		},
+		// verifStepLimit(n): more than n further interpreter steps from here on
+		// means the program under test does not terminate promptly (fatal);
+		// 0 lifts the bound
+		"verifStepLimit": func(fr *frame, a []value) value {
+			in := fr.in
+			n := in.concretiseInt(a[0], "verifStepLimit")
+			if n > 0 {
+				in.path.stepLimit = int64(in.path.steps) + n
+			} else {
+				in.path.stepLimit = 0
+			}
+			return nil
+		},
 		// verifCondSignals(): number of sync.Cond Signal/Broadcast calls so far on this path (ghost)
 		"verifCondSignals": func(fr *frame, a []value) value {
 			return fr.in.int64v(int64(fr.in.path.condSignals))
